@@ -212,7 +212,7 @@ func kindsOf(evs []StatEv) string {
 
 // c20Stats: 1..3 recording stats handlers per side over all kinds and outcomes.
 func c20Stats(r *Run) {
-	outcomes := []string{"ok", "handler-error", "cancel", "deadline", "transport-failure", "failed-open"}
+	outcomes := []string{"ok", "handler-error", "cancel", "deadline", "transport-failure", "failed-open", "precancel"}
 	kinds := []string{"unary", mBidi, mSrvStream, mCliStream}
 	for nh := 1; nh <= 3; nh++ {
 		for _, oc := range outcomes {
@@ -290,6 +290,9 @@ func c20StatsOne(r *Run, nh int, oc, kind string) {
 	}
 	if oc == "failed-open" {
 		rig.CEnd.FailWrite(errInjectedWrite)
+	}
+	if oc == "precancel" {
+		cancel() // the call is made on a context that has already ended
 	}
 	trigger := func() {
 		switch oc {
